@@ -1,3 +1,4 @@
+pub mod c01;
 pub mod c02;
 pub mod c03;
 pub mod c04;
@@ -21,6 +22,7 @@ use crate::simkit::Property;
 
 pub fn by_id(id: &str) -> Option<Box<dyn Property>> {
     match id {
+        "C01" => Some(Box::new(c01::C01)),
         "C02" => Some(Box::new(c02::C02)),
         "C03" => Some(Box::new(c03::C03)),
         "C04" => Some(Box::new(c04::C04)),
@@ -42,4 +44,4 @@ pub fn by_id(id: &str) -> Option<Box<dyn Property>> {
         _ => None,
     }
 }
-pub const ALL: &[&str] = &["C02", "C03", "C04", "C05", "C06", "C07", "C08", "C09", "C10", "C11", "C12", "C13", "C14", "C15", "C17", "C18", "C19", "C20"];
+pub const ALL: &[&str] = &["C01", "C02", "C03", "C04", "C05", "C06", "C07", "C08", "C09", "C10", "C11", "C12", "C13", "C14", "C15", "C17", "C18", "C19", "C20"];
